@@ -363,6 +363,13 @@ def run(F, chk):
                    "serialised but not (or doubly, or only conditionally) enumerated designates another block after a sort")
     chk.floor("R4.6", 600)
 
+    # ------------------------------------------------------------------ R4.7
+    chk.share(F, "c15", ["R15.3"], "R4.7",
+              "a block is given its place in the new order once: every recursive step of the sort (SetSortIndices and the Sort* "
+              "walkers that can reach themselves again) sits behind a visited test — a walker re-entered for a block that is still "
+              "pending hands out a second index, so the order is no longer a permutation of the block list")
+    chk.floor("R4.7", 10)
+
     chk.assumptions += ["C05: every reference is enumerated, so remapping the enumerated references remaps all of them",
                         "that SortGraph's rebuilt child array is a permutation of the old one, that the root ends up first and "
                         "that sorting is idempotent are value-level and not decided"]
